@@ -6,11 +6,13 @@ Property theorems about `Evo.Select` (model of `downsample`, `motion_filter`/`fi
 Rounding: `numpy.linspace(0, n-1, N, dtype=int)` rounds twice in binary64. The clauses that depend on
 it (`linspace_in_envelope`, `linspace_strict_mono`, `linspace_even`, `downsample_count`, …) are proved
 for EVERY rounding function `r` with `F64Rounding r` (relative error ≤ 2⁻⁵³ on [1/2, 2⁵³], exact on
-naturals < 2⁵³) and therefore for `Evo.F64.rne!` as soon as `F64Rounding F64.rne!` is available
-(`Lemmas/F64.lean`, owned by C06/C07); `downsample = downsampleWith F64.rne!` holds by definition.
-The clauses that do not depend on rounding are unconditional.
+naturals < 2⁵³); `rne_is_f64_rounding` shows that evo's rounding `Evo.F64.rne!` is one
+(`Lemmas/SelectF64.lean`, from the `rne` specification lemmas of `Lemmas/F64.lean`), and the `…_evo`
+theorems instantiate the clauses for `downsample = downsampleWith F64.rne!` without any hypothesis
+about rounding, for trajectories of up to 2²⁵ poses.
 -/
 import EvoModel.Lemmas.Select
+import EvoModel.Lemmas.SelectF64
 import Mathlib.Tactic.NormNum
 namespace Evo.C11
 open Evo Evo.Select
@@ -200,6 +202,59 @@ theorem downsample_preserves_order {α} (r : Rat → Rat) (hr : F64Rounding r) (
     simp only [h0, if_false] at h
     injection h with h; subst h
     exact reduceIds_sublist l _ (linspace_strict_mono r hr l.length N hN (by omega) hsz).1
+
+/-! ### down-sampling as evo computes it (binary64), no rounding hypothesis left -/
+
+/-- evo's rounding (`Evo.F64.rne!`, the executable binary64 round-to-nearest-even that the driver
+runs and that is compared with numpy on every run) satisfies the rounding hypothesis -/
+theorem rne_is_f64_rounding : F64Rounding F64.rne! := f64Rounding_rne
+
+theorem size_ok (n N : Nat) (hNn : N ≤ n) (hn : n ≤ 2 ^ 25) : 3 * (n - 1) * (N - 1) < 2 ^ 53 := by
+  have h1 : n - 1 < 2 ^ 25 := by omega
+  have h2 : N - 1 < 2 ^ 25 := by omega
+  have h3 : (n - 1) * (N - 1) ≤ (2 ^ 25 - 1) * (2 ^ 25 - 1) := Nat.mul_le_mul (by omega) (by omega)
+  have : 3 * (n - 1) * (N - 1) = 3 * ((n - 1) * (N - 1)) := by ring
+  rw [this]
+  calc 3 * ((n - 1) * (N - 1)) ≤ 3 * ((2 ^ 25 - 1) * (2 ^ 25 - 1)) := Nat.mul_le_mul_left 3 h3
+    _ < 2 ^ 53 := by norm_num
+
+/-- **Down-sampling to N keeps exactly min(N, count) poses** (evo's float evaluation) -/
+theorem downsample_count_evo {α} (l l' : List α) (N : Nat) (hn : l.length ≤ 2 ^ 25)
+    (h : downsample l N = .ok l') : l'.length = min N l.length := by
+  by_cases hs : l.length ≤ N
+  · rw [downsample_is_f64, downsample_noop_if_small _ l N hs] at h
+    injection h with h; subst h; omega
+  · exact downsample_count F64.rne! rne_is_f64_rounding l l' N (size_ok _ _ (by omega) hn) h
+
+/-- **… always including the first pose and (for N ≥ 2) the last** (evo's float evaluation) -/
+theorem downsample_keeps_first_last_evo {α} (l l' : List α) (N : Nat) (hN : 1 ≤ N) (hn : l.length ≤ 2 ^ 25)
+    (h : downsample l N = .ok l') :
+    l'[0]? = l[0]? ∧ (2 ≤ N → l'[l'.length - 1]? = l[l.length - 1]?) := by
+  by_cases hs : l.length ≤ N
+  · rw [downsample_is_f64, downsample_noop_if_small _ l N hs] at h
+    injection h with h; subst h; exact ⟨rfl, fun _ => rfl⟩
+  · exact downsample_keeps_first_last F64.rne! rne_is_f64_rounding l l' N hN
+      (size_ok _ _ (by omega) hn) h
+
+/-- **… evenly spaced by index** (evo's float evaluation): ids strictly increase, every gap is
+`⌊s⌋` or `⌈s⌉`, `|id_k − k·s| ≤ 1` for `s = (n−1)/(N−1)` -/
+theorem linspace_even_evo (n N : Nat) (hN : 2 ≤ N) (hNn : N < n) (hn : n ≤ 2 ^ 25) :
+    (linspaceIds n N).Pairwise (· < ·) ∧
+    ∀ k i, (linspaceIds n N)[k]? = some i →
+      (i * (N - 1) ≤ k * (n - 1) ∧ k * (n - 1) ≤ (i + 1) * (N - 1)) ∧
+      ∀ j, (linspaceIds n N)[k + 1]? = some j →
+        i + (n - 1) / (N - 1) ≤ j ∧ j ≤ i + (n - 1) / (N - 1) + (if (N - 1) ∣ (n - 1) then 0 else 1) := by
+  have hsz := size_ok n N (by omega) hn
+  exact ⟨(linspace_strict_mono F64.rne! rne_is_f64_rounding n N (by omega) hNn hsz).1,
+    fun k i hi => linspace_even F64.rne! rne_is_f64_rounding n N hN hNn hsz k i hi⟩
+
+/-- **… preserving the relative order of the kept poses** (evo's float evaluation) -/
+theorem downsample_preserves_order_evo {α} (l l' : List α) (N : Nat) (hN : 1 ≤ N) (hn : l.length ≤ 2 ^ 25)
+    (h : downsample l N = .ok l') : l'.Sublist l := by
+  by_cases hs : l.length ≤ N
+  · rw [downsample_is_f64, downsample_noop_if_small _ l N hs] at h
+    injection h with h; subst h; exact List.Sublist.refl _
+  · exact downsample_preserves_order F64.rne! rne_is_f64_rounding l l' N hN (size_ok _ _ (by omega) hn) h
 
 /-! ### motion filter -/
 
